@@ -30,15 +30,15 @@ theorem bgo_terminates (nb : V → List V) (Vs : List V) (hu : Undirected nb Vs)
 theorem bgo_visits_all (nb : V → List V) (Vs : List V) (hu : Undirected nb Vs) (hd : Vs.Nodup) (root : V) (hr : root ∈ Vs)
     (hc : connectedB nb Vs = true) :
     let s := bgo nb (biccFuel nb Vs) (binit nb root)
-    s.visited.Nodup ∧ (∀ v, v ∈ s.visited ↔ v ∈ Vs) := by
-  sorry
+    s.visited.Nodup ∧ (∀ v, v ∈ s.visited ↔ v ∈ Vs) :=
+  Gaftools.Proofs.Bicc.visits_all nb Vs hu root hr hc
 
 /-- RUNG 3 — what is reported lies inside the graph: components and articulation points are sets of nodes of `Vs`,
     every component has at least two nodes and is connected -/
 theorem bgo_wellformed (nb : V → List V) (Vs : List V) (hu : Undirected nb Vs) (hd : Vs.Nodup) (root : V) (hr : root ∈ Vs) :
     let r := biccsFrom nb root (biccFuel nb Vs)
-    (∀ c ∈ r.1, (∀ v ∈ c, v ∈ Vs) ∧ c.Nodup) ∧ (∀ a ∈ r.2, a ∈ Vs) := by
-  sorry
+    (∀ c ∈ r.1, (∀ v ∈ c, v ∈ Vs) ∧ c.Nodup) ∧ (∀ a ∈ r.2, a ∈ Vs) :=
+  Gaftools.Proofs.Bicc.wellformed nb Vs hu root hr
 
 /-- RUNG 4 — soundness of the articulation points: every reported point is a cut vertex -/
 theorem biccs_aps_sound (nb : V → List V) (Vs : List V) (hu : Undirected nb Vs) (hd : Vs.Nodup) (root : V) (hr : root ∈ Vs)
